@@ -360,6 +360,18 @@ func c15Tickets(c *Ctx, p *Prog) {
 		if len(p.CallsIn(gt, "(*$M/transports/scramblesuit.ssTicketStore).serialize")) == 0 {
 			bad = "the store is not written back after the deletion"
 		}
+		// "at most one handshake" across restarts: the ticket is handed out only together with the outcome
+		// of writing the store back (a failed write leaves the ticket on disk, so the caller must not use it:
+		// the dialer aborts on the error)
+		okErr := false
+		if len(r.Results) == 2 {
+			if ec, _ := callOf(unspill(r.Results[1])); ec != nil && p.CalleeID(ec.Common()) == M("(*$M/transports/scramblesuit.ssTicketStore).serialize") && del != nil && instrDominates(del, ec) {
+				okErr = true
+			}
+		}
+		if !okErr {
+			bad = "the ticket is handed out at " + p.InstrPos(r) + " without the error of the write-back (serialize): if the write failed the ticket is still on disk and will be presented again after a restart"
+		}
 	}
 	if nOut == 0 && bad == "" {
 		bad = "getTicket never returns a ticket"
